@@ -40,7 +40,7 @@ def design(ctx, thorough):
 
 def sig_features(g):
     f = kc.features(g["k"])
-    core = [x for x in ("header-stride", "loop-header", "empty-range", "atomic-alias", "atomic", "shared", "exclusive", "tile", "nested-outer", "sibling-outer", "runtime-bounds", "max_inner_dims",
+    core = [x for x in ("header-stride", "loop-header", "empty-range", "atomic-block", "atomic-alias", "atomic", "shared", "exclusive", "tile", "nested-outer", "sibling-outer", "runtime-bounds", "max_inner_dims",
                         "wrapped-inner", "nested-inner", "sibling-inner", "for", "if") if x in f]
     return ",".join(core[:4])
 
